@@ -14,7 +14,7 @@ for d in sorted(glob.glob('/verif/seeded/*/')):
     desc = re.sub(r'\s+', ' ', desc)[:170]
     rows.append((os.path.basename(d.rstrip('/')), desc, m['detected']['summary']))
 def rnd(name):
-    return 4 if '-r4-' in name else 3 if '-r3-' in name else 2 if '-r2-' in name else 1
+    return 5 if '-r5-' in name else 4 if '-r4-' in name else 3 if '-r3-' in name else 2 if '-r2-' in name else 1
 stats = {}
 for r in rows:
     k = rnd(r[0])
@@ -33,7 +33,10 @@ given the list of the five earlier ones, aimed at rarely combined calls, state s
 documented domain and components an obvious oracle does not look at; round 4 for two more, given the earlier seven,
 aimed at helper packages the anchored code calls into (ints, sortints, comb, views), at the order and repetition of
 calls (accessors that hand out internal state, caches keyed by identity, re-initialised builders, re-entrant calls)
-and at sizes past every threshold the earlier rounds had provoked. Each change compiles, passes the repository's own
+and at sizes past every threshold the earlier rounds had provoked; round 5 for two more, given the earlier nine,
+written as realistic maintenance commits (performance work: word-parallel tricks, unrolling, pooled or package-level
+scratch memory, narrowed integer types, fast paths above a size; refactors; well-meant robustness "fixes") whose slip
+needs two thresholds at once, a size between 64 and 5000, a particular error value, or a value with a past. Each change compiles, passes the repository's own
 test-suite and comes with a demonstration test that fails with the change and passes without it; all of that was
 re-confirmed with `tools/eval_mut.sh` (C19-r2-2 by hand under `-race`) before the change was kept under
 `seeded/<property>-<k>/`, `seeded/<property>-r<round>-<k>/` (`patch.diff`, `demo_test.go.txt`,
@@ -44,13 +47,15 @@ git -C /repo checkout -- .`.
 |---|---|---|---|
 """ + "".join(f"| {k} | {v[0]} | {v[0]-v[1]} | {v[1]} |\n" for k, v in sorted(stats.items())) + """
 (For round 2 the checks had already been extended after reading the authors' notes, so "on arrival" is generous there;
-for rounds 1, 3 and 4 every change was run first.) After the strengthenings every seeded change is reported by the quick
+for rounds 1, 3, 4 and 5 every change was run first.) After the strengthenings every seeded change is reported by the quick
 tier of some check, except C04-r2-3 (quick: about one seed in four; thorough: always). Changes reported by a different
 check than the one they were written for: C03-r2-1 (C01/C02), C03-r2-2 (C19), C03-r2-3 (C18), C10-r3-2 (C06),
 C19-r3-1 (C13) - each because the behaviour it breaks is that other property's subject. In round 4 four changes to
 shared helpers were first reported by the helper's own property (C06-r4-1 and C09-r4-1 by C17, C06-r4-2 by C16,
 C20-r4-1 by C19) and silent in the check they were written for; the generators of those checks were then extended
-until they report them too (hub hosts for views, Kneser n > 32, re-entrant weight functions).
+until they report them too (hub hosts for views, Kneser n > 32, re-entrant weight functions). In round 5, C09-r5-2 was first reported by C05, C13-r5-2 is
+reported by C12 only (the automata of C13 come from `dawg.New`; the change needs a Builder that is carried on after a
+rejected Add), and C19-r5-1 was first caught by the sequential C09 check once delivered cliques were watched.
 
 | seeded change | what it does (from the author's note) | result |
 |---|---|---|
@@ -81,7 +86,12 @@ library's own helpers and views, call back into the library - and what they see 
 (14) every result that is a slice is watched: copied on return and compared again after later calls, and every argument
 slice is overwritten after the call, which turns aliasing between caller and library into a visible difference;
 (15) 'a graph with a past' is a representation of its own: each graph is also presented after an add-vertex/remove-vertex
-detour, and as a small view of a much larger host with hub vertices.
+detour, and as a small view of a much larger host with hub vertices; (16) sizes: every check now has a regime well past
+64, 128, 256 and 512 elements, with sizes AT multiples of 64 and 256 and next to them drawn on purpose, using oracles that
+are known by construction (block trees, long thin partial orders, chains in a DAWG, transported orbit partitions) where
+exhaustive oracles stop; (17) injected faults vary in kind, not only in position: the error VALUE a failing Write
+returns is part of the fault space; (18) parameter regimes that make an iterator long but thin (k = n, near-total orders)
+are as cheap as small ones and reach code that small n never enters.
 """
 s = open('/verif/DESIGN.md').read()
 tail = ''
